@@ -157,6 +157,12 @@ class World:
             s.positions[:, 1] = np.sin(ang)
         self.nb2, self.w2 = write_neighbour_files(self.s2, 5, os.path.join(tmp, "w2d"))
         self.nb3, self.w3 = write_neighbour_files(self.s3, 4, os.path.join(tmp, "w3d"))
+        # the same list with one isolated particle (coordination number 0: its order parameters are undefined — nan)
+        self.nb3iso = os.path.join(tmp, "w3d.iso.neighbor.dat")
+        with open(self.nb3) as fi, open(self.nb3iso, "w") as fo:
+            for line in fi:
+                it = line.split()
+                fo.write("2 0 \n" if it and it[0] == "2" else line)
         N2, N3 = n2, n3
         g = lambda *shape: np.array([grid(rng, -1.5, 1.5) for _ in range(int(np.prod(shape)))]).reshape(shape)
         self.scal2 = g(nf, N2) + 2.0
@@ -399,6 +405,19 @@ def entries():
     def _(W, o):
         f = o + ".csv"
         return Call(lambda: boo3(W).time_corr(True, 0.002, f), files=[(f, "csv", ident, 8)])
+
+    def boo3iso(W):
+        return W.obj("boo3iso", lambda: _m("static.boo").boo_3d(W.s3, 4, W.nb3iso, None, W.ppp3, 10))
+
+    @reg("static.boo.boo_3d.ql_Ql")
+    def _(W, o):       # a particle without neighbours: undefined (nan) entries must reach the text file as such
+        f = o + ".dat"
+        return Call(lambda: boo3iso(W).ql_Ql(False, f), files=[(f + ".npy", "npy", ident, None), (f, "txt", ident, 6)])
+
+    @reg("static.boo.boo_3d.w_W_cap")
+    def _(W, o):
+        f, g = o + ".w.dat", o + ".wcap.dat"
+        return Call(lambda: boo3iso(W).w_W_cap(False, f, g), files=[(f, "txt", lambda r: r[0], 6), (g, "txt", lambda r: r[1], 6)])
 
     # the other value of every boolean option (a branch that keeps or rewrites state may sit behind either one)
     @reg("static.boo.boo_3d.time_corr")
